@@ -4,6 +4,7 @@ import numpy as np
 from common import Fr, enc_q, dec_q, enc_f, dec_f, same_q, close, rng
 
 LEAN_MODULE = 'PGM.Properties.C14'
+LEAN_EXTRA = ['PGM.Properties.C14B']
 TRUSTED = ['Lean 4.33 kernel', 'axioms: propext, Classical.choice, Quot.sound',
            'numpy indexing contracts of NdArr (reshape/moveaxis/broadcast_to/reduce/take), exercised per run',
            'hand model PGM/Model/Factor.lean tied to src/mbi/factor.py by this correspondence run',
@@ -381,8 +382,206 @@ def run(res, drv, tier, seed):
     run_cliquevector(res, drv, tier, seed)
 
 
+def gen_cv(r, dom, keys, permute=False):
+    """a CliqueVector as a list of {clique, dom, vals}; with permute, a factor may store its attributes in another order than its key"""
+    sizes = dict(dom)
+    out = []
+    for cl in keys:
+        attrs = list(cl)
+        if permute and r.random() < 0.4:
+            r.shuffle(attrs)
+        n = 1
+        for a in attrs:
+            n *= sizes[a]
+        vals = []
+        for _ in range(n):
+            u = r.random()
+            vals.append(-math.inf if u < 0.07 else (math.inf if u < 0.09 else (0 if u < 0.2 else r.choice([-3, -1, 1, 2, 5, 0.5, -0.25, 7]))))
+        out.append({'clique': list(cl), 'dom': [[a, sizes[a]] for a in attrs], 'vals': vals})
+    return out
+
+
+def cv_impl(cv):
+    from mbi import Domain, Factor, CliqueVector
+    return CliqueVector({tuple(e['clique']): Factor(Domain([a for a, _ in e['dom']], [s for _, s in e['dom']]), np.array(e['vals'], dtype=float))
+                         for e in cv})
+
+
+def cv_out(v):
+    return [{'clique': list(cl), 'dom': [[a, int(s)] for a, s in zip(v[cl].domain.attrs, v[cl].domain.shape)],
+             'vals': [float(x) for x in np.asarray(v[cl].values, dtype=float).flatten()]} for cl in v]
+
+
+def gen_cv_case(r):
+    dom = gen_domain(r)
+    names = [a for a, _ in dom]
+    keys = []
+    for _ in range(r.randint(1, 4)):
+        cl = r.sample(names, r.randint(1, min(3, len(names))))
+        if cl not in keys:
+            keys.append(cl)
+    fn = r.choice(['smul', 'add', 'sub', 'dot', 'combine', 'combine', 'zeros'])
+    a = gen_cv(r, dom, keys)
+    q = {'op': 'cv', 'fn': fn, 'dom': [list(p) for p in dom], 'a': a}
+    if fn == 'smul':
+        q['c'] = r.choice([0, 1, -1, 2, 0.5, -3, math.inf])
+    elif fn in ('add', 'sub', 'dot'):
+        q['b'] = gen_cv(r, dom, keys, permute=True)
+    elif fn == 'combine':
+        other = []
+        for _ in range(r.randint(0, 4)):
+            u = r.random()
+            if u < 0.7:      # inside some key (possibly several, possibly in another order)
+                k = r.choice(keys)
+                cl = r.sample(k, r.randint(1, len(k)))
+            else:            # arbitrary: may be covered by no key
+                cl = r.sample(names, r.randint(1, min(3, len(names))))
+            if cl not in other:
+                other.append(cl)
+        q['b'] = gen_cv(r, dom, other)
+    return q
+
+
+def cv_apply(q):
+    from mbi import Domain, CliqueVector
+    a = cv_impl(q['a'])
+    fn = q['fn']
+    try:
+        with np.errstate(all='ignore'):
+            if fn == 'smul':
+                return ('cv', cv_out(q['c'] * a if q.get('left', True) else a * q['c']))
+            if fn == 'add':
+                return ('cv', cv_out(a + cv_impl(q['b'])))
+            if fn == 'sub':
+                return ('cv', cv_out(a - cv_impl(q['b'])))
+            if fn == 'dot':
+                return ('scalar', float(a.dot(cv_impl(q['b']))))
+            if fn == 'combine':
+                a.combine(cv_impl(q['b']))
+                return ('cv', cv_out(a))
+            if fn == 'zeros':
+                d = Domain([x for x, _ in q['dom']], [s for _, s in q['dom']])
+                return ('cv', cv_out(CliqueVector.zeros(d, [tuple(e['clique']) for e in q['a']])))
+    except (AssertionError, KeyError, ValueError, IndexError) as e:
+        return ('raise', type(e).__name__)
+
+
+def cv_spec(q, out):
+    """clique-by-clique, by-name specification evaluated on the implementation's result"""
+    if out[0] == 'raise':
+        return None
+    sizes = dict(map(tuple, q['dom']))
+    fn = q['fn']
+    A = {tuple(e['clique']): e for e in q['a']}
+    B = {tuple(e['clique']): e for e in q.get('b', [])}
+
+    def n2n(x):
+        return 0.0 if math.isnan(x) else (1.7976931348623157e308 if x == math.inf else (-1.7976931348623157e308 if x == -math.inf else x))
+
+    def mulc(c, x):
+        with np.errstate(all='ignore'):
+            return n2n(float(np.float64(c) * np.float64(x)))
+
+    def eq(x, y):
+        return (math.isnan(x) and math.isnan(y)) or x == y or close(x, y, 1e-12, 1e-300)
+    if fn == 'dot':
+        want = 0.0
+        with np.errstate(all='ignore'):
+            for k, e in A.items():
+                for combo in itertools.product(*[range(sizes[x]) for x in k]):
+                    sg = dict(zip(k, combo))
+                    want = want + float(np.float64(lookup(e, sg)) * np.float64(lookup(B[k], sg)))
+        return None if eq(want, out[1]) else f'dot: {out[1]}, clique-by-clique sum of products {want}'
+    R = {tuple(e['clique']): e for e in out[1]}
+    if list(R) != list(A):
+        return f'keys {list(R)} != keys of the first operand {list(A)}'
+    for k, e in A.items():
+        res = R[k]
+        if sorted(a for a, _ in res['dom']) != sorted(k):
+            return f'result factor for {k} is over {res["dom"]}'
+        covered = []
+        if fn == 'combine':
+            for ko, eo in B.items():
+                first = next((kk for kk in A if set(ko) <= set(kk)), None)
+                if first == k:
+                    covered.append(eo)
+        for combo in itertools.product(*[range(sizes[x]) for x in k]):
+            sg = dict(zip(k, combo))
+            x = lookup(e, sg)
+            with np.errstate(all='ignore'):
+                if fn == 'smul':
+                    want = mulc(q['c'], x)
+                elif fn == 'add':
+                    want = x + lookup(B[k], sg)
+                elif fn == 'sub':
+                    want = x + mulc(-1.0, lookup(B[k], sg))
+                elif fn == 'zeros':
+                    want = 0.0
+                else:
+                    want = x
+                    for eo in covered:
+                        want = want + lookup(eo, sg)
+            got = lookup(res, sg)
+            if not eq(want, got):
+                return f'{fn}: clique {k} at {sg}: got {got}, by-name value {want}'
+    return None
+
+
+def cv_compare(resp, out):
+    if not resp['ok']:
+        return 'driver error: ' + resp['err']
+    if out[0] == 'raise':
+        return f'implementation raises {out[1]}, model returns'
+    o = resp['out']
+    if out[0] == 'scalar':
+        return None if same_q(dec_q(o['val']), out[1]) else f'scalar: model {o["val"]} impl {out[1]}'
+    if [e['clique'] for e in o] != [e['clique'] for e in out[1]]:
+        return f'keys: model {[e["clique"] for e in o]} impl {[e["clique"] for e in out[1]]}'
+    for em, ei in zip(o, out[1]):
+        if em['dom'] != ei['dom']:
+            return f'clique {em["clique"]}: factor domain model {em["dom"]} impl {ei["dom"]}'
+        for i, (mv, iv) in enumerate(zip(em['vals'], ei['vals'])):
+            if not same_q(dec_q(mv), iv):
+                return f'clique {em["clique"]} cell {i}: model {mv} impl {iv}'
+    return None
+
+
+def cv_request(q):
+    q2 = dict(q)
+    for key in ('a', 'b'):
+        if key in q:
+            q2[key] = [dict(e, vals=[enc_q(v) for v in e['vals']]) for e in q[key]]
+    if 'c' in q:
+        q2['c'] = enc_q(q['c'])
+    return q2
+
+
 def run_cliquevector(res, drv, tier, seed):
-    pass
+    """CliqueVector arithmetic: clique by clique, by attribute name (theorems of C14B)"""
+    r = rng(seed, 'C14-cv')
+    n = 200 if tier == 'quick' else 3000
+    qs = [gen_cv_case(r) for _ in range(n)]
+    outs = [cv_apply(q) for q in qs]
+    resps = drv.run([cv_request(q) for q in qs]) if drv else [None] * n
+    for q, out, resp in zip(qs, outs, resps):
+        res.case(q, len(q['a']) >= 2 or q['fn'] == 'combine')
+        res.count('cliquevector:' + q['fn'])
+        if q['fn'] == 'combine':
+            keys = [set(e['clique']) for e in q['a']]
+            for e in q['b']:
+                nc = sum(1 for k in keys if set(e['clique']) <= k)
+                res.count('combine: factor covered by %s key(s)' % ('no' if nc == 0 else ('one' if nc == 1 else 'several')))
+        sp = cv_spec(q, out)
+        if sp is not None:
+            res.violation('failing-input', f'CliqueVector.{q["fn"]} is not clique-by-clique by name: {sp}', {'request': q, 'observed': out, 'expected': sp},
+                          key=f'cliquevector.{q["fn"]}:spec')
+            continue
+        if resp is None:
+            continue
+        d = cv_compare(resp, out)
+        if d is not None:
+            res.violation('correspondence', f'CliqueVector.{q["fn"]}: model and implementation differ ({d}); the by-name specification holds on this input',
+                          {'request': q, 'observed': out, 'model': resp, 'stream': 'C14.cliquevector'})
 
 
 def search(res, tier, seed, broken):
@@ -397,10 +596,35 @@ def search(res, tier, seed, broken):
                           {'request': {'fn': fn, 'f': f, 'g': g, 'args': args, 'k': k}, 'observed': out, 'expected': sp},
                           key=f'factor.{fn}:spec')
             return
+    for _ in range(1500):
+        q = gen_cv_case(r)
+        out = cv_apply(q)
+        sp = cv_spec(q, out)
+        if sp is not None:
+            res.violation('failing-input', f'CliqueVector.{q["fn"]} is not clique-by-clique by name: {sp}', {'request': q, 'observed': out, 'expected': sp},
+                          key=f'cliquevector.{q["fn"]}:spec')
+            return
 
 
 def replay(res, drv, rp):
     q = rp['request']
+    if q.get('op') == 'cv':
+        for key in ('a', 'b'):
+            for e in q.get(key, []):
+                e['vals'] = [float(v) for v in e['vals']]
+        if 'c' in q:
+            q['c'] = float(q['c'])
+        out = cv_apply(q)
+        sp = cv_spec(q, out)
+        res.case(q)
+        if sp is not None:
+            res.violation('failing-input', f'CliqueVector.{q["fn"]} is not clique-by-clique by name: {sp}', {'request': q, 'observed': out, 'expected': sp},
+                          key=f'cliquevector.{q["fn"]}:spec')
+        elif drv:
+            d = cv_compare(drv.one(cv_request(q)), out)
+            if d:
+                res.violation('correspondence', d, {'request': q, 'observed': out, 'stream': 'C14.cliquevector'})
+        return
     fn, f, g, args, k = q['fn'], q['f'], q['g'], q['args'], q['k']
     for fd in (f, g):
         if fd:
